@@ -165,7 +165,7 @@ theorem kindOf_eq (S : Schema) (n : String) : Model.kindOf S n = Spec.kindOf S n
 
 /-- For a composite parent the model's TypeInfo entry and the specification's field lookup agree,
     except that TypeInfo has no entry for `__typename`. -/
-theorem fieldDef_agree {S : Schema} (hwf : S.wf = true) {p : String} (hp : Spec.isComposite S p = true)
+theorem fieldDef_agree {S : Schema} (_hwf : S.wf = true) {p : String} (hp : Spec.isComposite S p = true)
     (n : String) :
     Spec.fieldDef? S p n =
       if n = "__typename" then some Spec.typenameField else Model.fieldDefinition S (some p) n := by
@@ -591,5 +591,414 @@ theorem primaryFree_flatMap {α : Type} (xs : List α) (f : α → List Err) :
     primaryFree (xs.flatMap f) = xs.all (fun x => primaryFree (f x)) := by
   unfold primaryFree
   exact all_flatMap xs f _
+
+/-! ## Arguments: one argument list -/
+
+def known (defs : List InputDef) (a : Argument) : Bool := (findInput defs a.name).isSome
+
+theorem argumentLoopErrors_nil (defs : List InputDef) (byName args : List Argument) :
+    argumentLoopErrors defs byName args = [] ↔
+      ((∀ a ∈ args, known defs a = true) ∧ (∀ a ∈ args, ∀ x ∈ byName, x.name ≠ a.name) ∧
+        Spec.nodup (args.map (·.name)) = true) := by
+  induction args generalizing byName with
+  | nil => simp [argumentLoopErrors, Spec.nodup]
+  | cons a rest ih =>
+    unfold argumentLoopErrors
+    cases hf : findInput defs a.name with
+    | none => simp [known, hf]
+    | some d =>
+      by_cases hb : (byName.any fun x => x.name = a.name) = true
+      · rw [if_pos hb]
+        simp only [List.any_eq_true, decide_eq_true_eq] at hb
+        obtain ⟨x, hx, hxe⟩ := hb
+        constructor
+        · intro h; simp at h
+        · rintro ⟨_, h2, _⟩
+          exact absurd hxe (h2 a (by simp) x hx)
+      · rw [if_neg hb, ih]
+        simp only [List.any_eq_true, decide_eq_true_eq, not_exists, not_and] at hb
+        simp only [nodup_cons, List.map_cons, Bool.and_eq_true, Bool.not_eq_true', List.mem_cons,
+          forall_eq_or_imp, List.mem_append, List.mem_singleton, List.not_mem_nil, or_false]
+        have hk : known defs a = true := by simp [known, hf]
+        constructor
+        · rintro ⟨h1, h2, h3⟩
+          refine ⟨⟨hk, h1⟩, ⟨fun x hx => hb x hx, fun b hb' x hx => h2 b hb' x (Or.inl hx)⟩, ?_, h3⟩
+          simp only [List.contains_eq_mem, List.mem_map, decide_eq_false_iff_not, not_exists, not_and]
+          intro b hb' he
+          exact h2 b hb' a (Or.inr rfl) he.symm
+        · rintro ⟨⟨_, h1⟩, ⟨_, h2⟩, h3, h4⟩
+          refine ⟨h1, ?_, h4⟩
+          intro b hb' x hx
+          rcases hx with hx | hx
+          · exact h2 b hb' x hx
+          · subst hx
+            simp only [List.contains_eq_mem, List.mem_map, decide_eq_false_iff_not, not_exists, not_and] at h3
+            exact fun he => h3 b hb' he.symm
+
+theorem argumentLoopErrors_primary (defs : List InputDef) (byName args : List Argument) :
+    primaryFree (argumentLoopErrors defs byName args) = (argumentLoopErrors defs byName args).isEmpty := by
+  induction args generalizing byName with
+  | nil => simp [argumentLoopErrors, primaryFree]
+  | cons a rest ih =>
+    unfold argumentLoopErrors
+    cases hf : findInput defs a.name with
+    | none => simp [primaryFree, newError]
+    | some d =>
+      by_cases hb : (byName.any fun x => x.name = a.name) = true
+      · simp [hb, primaryFree, newError]
+      · simp only [hb]; exact ih _
+
+/-- `argumentsByName` holds exactly the names of the accumulator and of the defined arguments. -/
+theorem mem_argumentsByName (defs : List InputDef) (byName args : List Argument) (n : String) :
+    (∃ x ∈ argumentsByName defs byName args, x.name = n) ↔
+      ((∃ x ∈ byName, x.name = n) ∨ (∃ a ∈ args, a.name = n ∧ known defs a = true)) := by
+  induction args generalizing byName with
+  | nil => simp [argumentsByName]
+  | cons a rest ih =>
+    unfold argumentsByName
+    cases hf : findInput defs a.name with
+    | none =>
+      have hk : known defs a = false := by simp [known, hf]
+      simp only [ih, List.mem_cons, exists_eq_or_imp, hk]
+      simp
+    | some d =>
+      have hk : known defs a = true := by simp [known, hf]
+      by_cases hb : (byName.any fun x => x.name = a.name) = true
+      · rw [if_pos hb, ih]
+        simp only [List.any_eq_true, decide_eq_true_eq] at hb
+        obtain ⟨x, hx, hxe⟩ := hb
+        simp only [List.mem_cons, exists_eq_or_imp, hk, and_true]
+        constructor
+        · rintro (h | h)
+          · exact Or.inl h
+          · exact Or.inr (Or.inr h)
+        · rintro (h | h | h)
+          · exact Or.inl h
+          · exact Or.inl ⟨x, hx, hxe.trans h⟩
+          · exact Or.inr h
+      · rw [if_neg hb, ih]
+        simp only [List.mem_cons, exists_eq_or_imp, hk, and_true, List.mem_append, List.mem_singleton,
+          List.not_mem_nil, or_false]
+        constructor
+        · rintro (⟨x, hx | hx, hn⟩ | h)
+          · exact Or.inl ⟨x, hx, hn⟩
+          · subst hx; exact Or.inr (Or.inl hn)
+          · exact Or.inr (Or.inr h)
+        · rintro (⟨x, hx, hn⟩ | h | h)
+          · exact Or.inl ⟨x, Or.inl hx, hn⟩
+          · exact Or.inl ⟨a, Or.inr rfl, h⟩
+          · exact Or.inr h
+
+theorem findInput_name {defs : List InputDef} {n : String} {d : InputDef} (h : findInput defs n = some d) :
+    d.name = n := by
+  unfold findInput at h
+  simpa using List.find?_some h
+
+theorem findInput_self {defs : List InputDef} {d : InputDef} (h : d ∈ defs) : (findInput defs d.name).isSome = true := by
+  unfold findInput
+  rw [List.find?_isSome]
+  exact ⟨d, h, by simp⟩
+
+def siteOk (s : ArgSite) : Bool := argsKnownAt s && argsUniqueAt s && argsRequiredAt s
+
+theorem requiredErrors_primary (pos : Pos) (byName : List Argument) (defs : List InputDef) :
+    primaryFree (requiredErrors pos byName defs) =
+      defs.all (fun d => !(d.type.isNonNull && d.dflt = .none) || byName.any (fun a => a.name = d.name)) := by
+  unfold requiredErrors
+  rw [primaryFree_flatMap]
+  apply all_congr_mem
+  intro d _
+  by_cases hr : (d.type.isNonNull && d.dflt = .none) = true
+  · simp only [hr, if_true, Bool.not_true, Bool.false_or]
+    cases hfind : byName.find? (fun x => x.name = d.name) with
+    | none =>
+      have : (byName.any fun a => a.name = d.name) = false := by
+        rw [List.find?_eq_none] at hfind
+        simp at hfind ⊢
+        exact hfind
+      simp [this, primaryFree, newError]
+    | some a =>
+      have hmem := List.mem_of_find?_eq_some hfind
+      have hp := List.find?_some hfind
+      have : (byName.any fun a => a.name = d.name) = true := by
+        simp; exact ⟨a, hmem, by simpa using hp⟩
+      by_cases hnull : a.value.isNull = true <;> simp [this, hnull, primaryFree, newSecondaryError]
+  · simp [hr, primaryFree]
+
+/-- One argument list: the callback reports a primary error exactly when §5.4.1, §5.4.2 or
+    §5.4.2.1 is violated for it. -/
+theorem checkArguments_ok (pos : Pos) (args : List Argument) (defs : List InputDef) :
+    primaryFree (checkArguments pos args defs) = siteOk { defs := defs, args := args } := by
+  unfold checkArguments siteOk argsKnownAt argsUniqueAt argsRequiredAt
+  by_cases he : (args.isEmpty && defs.isEmpty) = true
+  · simp only [he, if_true]
+    simp at he
+    simp [he.1, he.2, primaryFree, Spec.nodup]
+  · rw [if_neg he]
+    rw [primaryFree_append, argumentLoopErrors_primary, requiredErrors_primary]
+    have h1 : (argumentLoopErrors defs [] args).isEmpty =
+        (args.all (fun a => (findInput defs a.name).isSome) && Spec.nodup (args.map (·.name))) := by
+      rw [Bool.eq_iff_iff]
+      simp only [List.isEmpty_iff, argumentLoopErrors_nil, Bool.and_eq_true, List.all_eq_true, known]
+      simp
+    have h2 : defs.all (fun d => !(d.type.isNonNull && d.dflt = .none) ||
+          (argumentsByName defs [] args).any (fun a => a.name = d.name)) =
+        defs.all (fun d => !(d.type.isNonNull && d.dflt = .none) || args.any (fun a => a.name = d.name)) := by
+      apply all_congr_mem
+      intro d hd
+      congr 1
+      rw [Bool.eq_iff_iff]
+      simp only [List.any_eq_true, decide_eq_true_eq]
+      have := mem_argumentsByName defs [] args d.name
+      simp only [List.not_mem_nil, false_and, exists_false, false_or] at this
+      rw [this]
+      constructor
+      · rintro ⟨a, ha, hn, _⟩; exact ⟨a, ha, hn⟩
+      · rintro ⟨a, ha, hn⟩
+        refine ⟨a, ha, hn, ?_⟩
+        unfold known
+        rw [hn]
+        exact findInput_self hd
+    rw [h1, h2]
+
+
+/-! ## Every occurrence below a composite scope has a composite parent (under the scoping rules) -/
+
+def occParent : Occ → Option String
+  | .field p .. => p
+  | .spread p .. => p
+  | .inline p .. => p
+
+mutual
+theorem occ_parents_sel {S : Schema} (hwf : S.wf = true) : ∀ (scope : Option String) (sel : Selection),
+    Inv S scope → (occSel S scope sel).all (scopedAt S) = true →
+    ∀ o ∈ occSel S scope sel, Inv S (occParent o)
+  | scope, .field al n np args dirs none, hinv, _ => by
+    intro o ho
+    simp only [occSel, List.mem_singleton] at ho
+    subst ho; exact hinv
+  | scope, .field al n np args dirs (some ss), hinv, h => by
+    obtain ⟨p, rfl, hp⟩ := hinv
+    simp only [occSel, List.all_cons, Bool.and_eq_true] at h
+    obtain ⟨d, _, hs, hc⟩ := field_with_sel hwf hp h.1
+    have e2 : Spec.fieldScope S (some p) n = some d.type.base := by simp [Spec.fieldScope, hs]
+    intro o ho
+    simp only [occSel, List.mem_cons] at ho
+    rcases ho with rfl | ho
+    · exact ⟨p, rfl, hp⟩
+    · rw [e2] at ho
+      exact occ_parents_set hwf (some d.type.base) ss ⟨_, rfl, hc⟩ (by simpa [e2] using h.2) o ho
+  | scope, .spread n np dirs p, hinv, _ => by
+    intro o ho
+    simp only [occSel, List.mem_singleton] at ho
+    subst ho; exact hinv
+  | scope, .inline tc dirs ss p, hinv, h => by
+    simp only [occSel, List.all_cons, Bool.and_eq_true] at h
+    have hc : condOkAt S (.inline scope tc dirs p) = true := by
+      have := h.1
+      simp only [scopedAt, Bool.and_eq_true] at this
+      simp [condOkAt, this.1.2, this.2]
+    obtain ⟨_, hinv'⟩ := inline_scope hinv hc
+    intro o ho
+    simp only [occSel, List.mem_cons] at ho
+    rcases ho with rfl | ho
+    · exact hinv
+    · exact occ_parents_set hwf _ ss hinv' h.2 o ho
+theorem occ_parents_set {S : Schema} (hwf : S.wf = true) : ∀ (scope : Option String) (ss : SelSet),
+    Inv S scope → (occSet S scope ss).all (scopedAt S) = true →
+    ∀ o ∈ occSet S scope ss, Inv S (occParent o)
+  | scope, .mk sels p, hinv, h => by
+    simp only [occSet] at *
+    exact occ_parents_sels hwf scope sels hinv h
+theorem occ_parents_sels {S : Schema} (hwf : S.wf = true) : ∀ (scope : Option String) (sels : List Selection),
+    Inv S scope → (occSels S scope sels).all (scopedAt S) = true →
+    ∀ o ∈ occSels S scope sels, Inv S (occParent o)
+  | scope, [], _, _ => by simp [occSels]
+  | scope, s :: rest, hinv, h => by
+    simp only [occSels, List.all_append, Bool.and_eq_true] at h
+    intro o ho
+    simp only [occSels, List.mem_append] at ho
+    rcases ho with ho | ho
+    · exact occ_parents_sel hwf scope s hinv h.1 o ho
+    · exact occ_parents_sels hwf scope rest hinv h.2 o ho
+end
+
+/-! ## Arguments: the traversal -/
+
+/-- The argument definitions the callback of validateArguments uses at a field node. -/
+def modelArgDefs (S : Schema) (scope : Option String) (n : String) : List InputDef :=
+  match Model.fieldDefinition S scope n with
+  | some d => d.args
+  | none => []
+
+def argsOcc (S : Schema) : Occ → List Err
+  | .field scope al n np args dirs _ =>
+    checkArguments (fieldPos al np) args (modelArgDefs S scope n) ++ argsDirectives S dirs
+  | .spread _ _ _ dirs _ => argsDirectives S dirs
+  | .inline _ _ dirs _ => argsDirectives S dirs
+
+/-- TypeInfo has a definition for the field (or it is `__typename`): validateArguments does not
+    stop at this node. -/
+def hasInfoAt (S : Schema) : Occ → Bool
+  | .field scope _ n _ _ _ _ => (Model.fieldDefinition S scope n).isSome || n = "__typename"
+  | _ => true
+
+mutual
+theorem args_sel_flat (S : Schema) : ∀ (scope : Option String) (sel : Selection),
+    (moccSel S scope sel).all (hasInfoAt S) = true →
+    argsSel S scope sel = (moccSel S scope sel).flatMap (argsOcc S)
+  | scope, .field al n np args dirs none, h => by
+    simp only [moccSel, List.all_cons, Bool.and_eq_true] at h
+    have hi := h.1
+    simp only [hasInfoAt, Bool.or_eq_true, decide_eq_true_eq] at hi
+    unfold argsSel
+    cases hd : Model.fieldDefinition S scope n with
+    | some d => simp [moccSel, argsOcc, modelArgDefs, hd]
+    | none =>
+      have hn : n = "__typename" := by
+        rcases hi with hi | hi
+        · simp [hd] at hi
+        · exact hi
+      subst hn
+      simp [moccSel, argsOcc, modelArgDefs, hd]
+  | scope, .field al n np args dirs (some ss), h => by
+    simp only [moccSel, List.all_cons, Bool.and_eq_true] at h
+    have hi := h.1
+    simp only [hasInfoAt, Bool.or_eq_true, decide_eq_true_eq] at hi
+    have hsub := args_set_flat S (Model.innerScope S scope n) ss h.2
+    unfold argsSel
+    cases hd : Model.fieldDefinition S scope n with
+    | some d => simp [moccSel, argsOcc, modelArgDefs, hd, hsub]
+    | none =>
+      have hn : n = "__typename" := by
+        rcases hi with hi | hi
+        · simp [hd] at hi
+        · exact hi
+      subst hn
+      simp [moccSel, argsOcc, modelArgDefs, hd, hsub]
+  | scope, .spread n np dirs p, _ => by
+    simp [argsSel, moccSel, argsOcc]
+  | scope, .inline tc dirs ss p, h => by
+    simp only [moccSel, List.all_cons, Bool.and_eq_true] at h
+    simp only [argsSel, moccSel, List.flatMap_cons, argsOcc, args_set_flat S _ ss h.2]
+theorem args_set_flat (S : Schema) : ∀ (scope : Option String) (ss : SelSet),
+    (moccSet S scope ss).all (hasInfoAt S) = true →
+    argsSet S scope ss = (moccSet S scope ss).flatMap (argsOcc S)
+  | scope, .mk sels p, h => by
+    simp only [moccSet, argsSet] at *
+    exact args_sels_flat S scope sels h
+theorem args_sels_flat (S : Schema) : ∀ (scope : Option String) (sels : List Selection),
+    (moccSels S scope sels).all (hasInfoAt S) = true →
+    argsSels S scope sels = (moccSels S scope sels).flatMap (argsOcc S)
+  | scope, [], _ => by simp [argsSels, moccSels]
+  | scope, s :: rest, h => by
+    simp only [moccSels, List.all_append, Bool.and_eq_true] at h
+    simp only [argsSels, moccSels, List.flatMap_append, args_sel_flat S scope s h.1,
+      args_sels_flat S scope rest h.2]
+end
+
+
+/-! ## Well-scoped documents -/
+
+/-- The rules after which every selection set has a composite type in scope and every field is
+    defined on it: supported operation types, §5.5.1.2, §5.5.1.3, §5.3.1, §5.3.3 (plus the
+    well-formedness of the schema description). -/
+structure WellScoped (S : Schema) (D : Document) : Prop extends ScopeRules S D where
+  fields : Spec.fieldsDefined S D = true
+  leaves : Spec.leafSelections S D = true
+
+theorem def_occs {S : Schema} {D : Document} (h : WellScoped S D) {d : Definition} (hd : d ∈ D) :
+    moccSet S (Model.defScope S d) (Model.defSel d) = Spec.occDef S d ∧
+    (∀ o ∈ Spec.occDef S d, Inv S (occParent o) ∧ scopedAt S o = true) := by
+  obtain ⟨e, hinv, hcond⟩ := def_scope h.toScopeRules hd
+  have hf := h.fields
+  have hl := h.leaves
+  simp only [Spec.fieldsDefined, Spec.leafSelections, Spec.selOccs, all_flatMap, List.all_eq_true] at hf hl
+  have hsc : (Spec.occDef S d).all (scopedAt S) = true := by
+    simp only [List.all_eq_true] at hcond ⊢
+    intro o ho
+    have a := hf d hd o ho
+    have b := hl d hd o ho
+    have c := hcond o ho
+    simp only [condOkAt, Bool.and_eq_true] at c
+    simp [scopedAt, a, b, c.1, c.2]
+  rw [occDef_eq] at hsc ⊢
+  refine ⟨?_, ?_⟩
+  · rw [e]; exact mocc_set_eq h.wf _ _ hinv hsc
+  · intro o ho
+    refine ⟨occ_parents_set h.wf _ _ hinv hsc o ho, ?_⟩
+    simp only [List.all_eq_true] at hsc
+    exact hsc o ho
+
+/-- At a well-scoped occurrence TypeInfo has the field's definition, and it is the
+    specification's (with no entry, and no argument definitions, for `__typename`). -/
+theorem info_of_scoped {S : Schema} (hwf : S.wf = true) {o : Occ} (hinv : Inv S (occParent o))
+    (hs : scopedAt S o = true) : hasInfoAt S o = true := by
+  cases o with
+  | field parent al n np args dirs sel =>
+    obtain ⟨p, hp', hp⟩ := hinv
+    simp only [occParent] at hp'
+    subst hp'
+    simp only [scopedAt, Bool.and_eq_true, fieldDefinedAt, hp, Bool.not_true, Bool.false_or] at hs
+    have hdef := hs.1.1.1
+    have hagree := fieldDef_agree hwf hp n
+    simp only [hasInfoAt, Bool.or_eq_true, decide_eq_true_eq]
+    by_cases hn : n = "__typename"
+    · exact Or.inr hn
+    · simp only [hn, if_false] at hagree
+      rw [hagree] at hdef
+      exact Or.inl hdef
+  | spread => rfl
+  | inline => rfl
+
+theorem argsDirectives_ok (S : Schema) (dirs : List Directive) :
+    primaryFree (argsDirectives S dirs) = (Spec.dirArgSites S dirs).all siteOk := by
+  unfold argsDirectives Spec.dirArgSites
+  induction dirs with
+  | nil => rfl
+  | cons d rest ih =>
+    simp only [List.flatMap_cons, primaryFree_append, List.filterMap_cons, ih]
+    unfold argsDirective
+    cases hf : S.findDirective d.name with
+    | none => simp [primaryFree, newSecondaryError]
+    | some dd => simp [checkArguments_ok]
+
+theorem argsOcc_ok {S : Schema} (hwf : S.wf = true) {o : Occ} (hinv : Inv S (occParent o))
+    (hs : scopedAt S o = true) :
+    primaryFree (argsOcc S o) = (Spec.occArgSites S o).all siteOk := by
+  cases o with
+  | field parent al n np args dirs sel =>
+    obtain ⟨p, hp', hp⟩ := hinv
+    simp only [occParent] at hp'
+    subst hp'
+    simp only [scopedAt, Bool.and_eq_true, fieldDefinedAt, hp, Bool.not_true, Bool.false_or] at hs
+    have hdef := hs.1.1.1
+    have hagree := fieldDef_agree hwf hp n
+    have htn := fieldDefinition_typename hwf (some p)
+    simp only [argsOcc, Spec.occArgSites, primaryFree_append, List.all_append, argsDirectives_ok, Spec.occDirs]
+    congr 1
+    cases hd : Spec.fieldDef? S p n with
+    | none => simp [hd] at hdef
+    | some d =>
+      simp only [List.all_cons, List.all_nil, Bool.and_true, checkArguments_ok]
+      congr 2
+      by_cases hn : n = "__typename"
+      · subst hn
+        simp only [if_true] at hagree
+        rw [hd] at hagree
+        simp only [Option.some.injEq] at hagree
+        subst hagree
+        simp [modelArgDefs, htn, Spec.typenameField]
+      · simp only [hn, if_false] at hagree
+        rw [hd] at hagree
+        simp [modelArgDefs, ← hagree]
+  | spread parent n np dirs p =>
+    simp [argsOcc, Spec.occArgSites, argsDirectives_ok, Spec.occDirs]
+  | inline parent tc dirs p =>
+    simp [argsOcc, Spec.occArgSites, argsDirectives_ok, Spec.occDirs]
+
+theorem all_and3 {α : Type} (xs : List α) (p q r : α → Bool) :
+    (xs.all p && xs.all q && xs.all r) = xs.all (fun x => p x && q x && r x) := by
+  rw [all_and, all_and]
 
 end ApiFu.C04
